@@ -216,7 +216,9 @@ class XGen:
         if kind == "href":
             instr = ' HYPERLINK "http://example.com/%d"%s ' % (self.n, switch)
         elif kind == "anchor":
-            instr = ' HYPERLINK \\l "bm%d"%s ' % (r.randint(1, 3), switch)
+            # any white space may separate HYPERLINK, \\l and the bookmark name
+            ws = lambda: r.choice([" ", " ", "  ", "\t", " \t "])
+            instr = '%sHYPERLINK%s\\l%s"bm%d"%s ' % (r.choice(["", " ", "  "]), ws(), ws(), r.randint(1, 3), switch)
         elif kind == "checkbox":
             instr = " FORMCHECKBOX "
         else:
